@@ -33,8 +33,9 @@ static int strategy;
 static long nyields;
 static int *explicit_list;
 static long nexplicit, iexplicit;
-static unsigned char *decisions;
-static long ndecisions, capdecisions;
+#define MAXDEC (1L << 21)
+static unsigned char decisions[MAXDEC];
+static long ndecisions;
 static long pct_points[8];
 static int pct_n;
 static __thread int self_id = -1;
@@ -108,11 +109,8 @@ runnable(int i)
 static void
 record(int t)
 {
-	if (ndecisions >= capdecisions) {
-		capdecisions = capdecisions ? capdecisions * 2 : 1024;
-		decisions = realloc(decisions, (size_t) capdecisions);
-	}
-	decisions[ndecisions++] = (unsigned char) t;
+	if (ndecisions < MAXDEC)
+		decisions[ndecisions++] = (unsigned char) t;
 }
 
 /* Returns the next thread to run or -1 when none is runnable. */
